@@ -5,6 +5,7 @@ package main
 // printed fields. All queries are emptiness problems over ONE symbolic string carrying marker characters.
 
 import (
+	"go/types"
 	"encoding/json"
 	"fmt"
 	"os"
@@ -598,6 +599,11 @@ func (w *World) extractDispatch(fn *ssa.Function) ([]dispatchCase, string) {
 					if f, ok := v.X.(*ssa.Function); ok {
 						dc.handler = f
 					}
+					if cl, ok := v.X.(*ssa.Call); ok {
+						if sc := cl.Common().StaticCallee(); sc != nil && dc.handler == nil {
+							dc.nested = sc
+						}
+					}
 				}
 			case *ssa.Return:
 				if len(x.Results) == 1 {
@@ -666,6 +672,29 @@ func (w *World) sshdLemmas(prop string) ([]lemmaQ, []string) {
 		return []lemmaQ{{name: "lemma/formats", note: "cannot load the format oracle: " + err.Error()}}, nil
 	}
 	top, why := w.extractDispatch(w.sshdFunc("ProcessEntry"))
+	if len(top) == 0 {
+		// the dispatch chain was moved into a helper that ProcessEntry calls and that returns the handler
+		if pe := w.sshdFunc("ProcessEntry"); pe != nil {
+			for _, b := range pe.Blocks {
+				for _, in := range b.Instrs {
+					c, ok := in.(*ssa.Call)
+					if !ok {
+						continue
+					}
+					sc := c.Common().StaticCallee()
+					if sc == nil || sc.Blocks == nil || fnPkgPath(sc) != fnPkgPath(pe) || sc.Signature.Results().Len() == 0 {
+						continue
+					}
+					if _, isFn := sc.Signature.Results().At(0).Type().Underlying().(*types.Signature); !isFn {
+						continue
+					}
+					if t2, why2 := w.extractDispatch(sc); len(t2) > 0 {
+						top, why = t2, why2
+					}
+				}
+			}
+		}
+	}
 	if why != "" {
 		return []lemmaQ{{name: "lemma/dispatch:ProcessEntry", note: "dispatch table not recognised: " + why}}, nil
 	}
